@@ -107,6 +107,44 @@ def rule_e(R, ctx):
     R.ob("C15.e", gcf, "both-sets", {"delete_set", "insert_set"} <= both, "integrate_gc records the range in %s" % sorted(both))
 
 
+def rule_g(R, ctx, rid="C15.g"):
+    import json as _json
+    Y = ctx.yrs
+    R.rule(rid, "R-PROV a compacted run of GC ranges keeps its extent: in ClientBlockList::squash_left_range_compaction the GC/GC arm "
+                "that absorbs a whole run into the block before it stores left.len = (right.clock - left.clock) + right.len, with "
+                "`right` the last block of the run (value numbering: new_len + left.clock == right.clock + right.len) — adding only "
+                "the last block's length (BlockRange::merge) loses the middle blocks and leaves a hole in the client's clocks or "
+                "moves its frontier backwards")
+    fn = Y.fn("yrs::block_store::ClientBlockList::squash_left_range_compaction")
+    stores = [(i, st) for i, j, st in fn.stmts() if isinstance(st["dst"], dict) and st["dst"]["p"] and isinstance(st["dst"]["p"][-1], str)
+              and st["dst"]["p"][-1].endswith("BlockRange.len") and "use" in st["rv"]]
+    R.floor(rid, "stores to a GC range's len in the compaction pass", len(stores), 1)
+
+    def pl(k):
+        if k[0] == "place":
+            try:
+                d = _json.loads(k[1])
+                return d.get("l"), [x for x in d.get("p", []) if x != "*"]
+            except Exception:
+                return None
+        return None
+    for n, (i, st) in enumerate(stores):
+        L = st["dst"]["l"]
+        k = mir_value_key(fn, st["rv"]["use"])
+        ok = False
+        if k[0] == "Add":
+            for a, b in ((k[1], k[2]), (k[2], k[1])):
+                if a[0] == "Sub" and pl(a[1]) and pl(a[2]) and pl(b):
+                    rc, lc, rl = pl(a[1]), pl(a[2]), pl(b)
+                    ok = ok or (lc[0] == L and lc[1][-1:] == ["yrs::block::BlockRange.clock"] and rc[1][-1:] == ["yrs::block::BlockRange.clock"]
+                                and rl[1][-1:] == ["yrs::block::BlockRange.len"] and rc[0] == rl[0] and rc[0] != L)
+        R.ob(rid, fn, "gc-run-extent#%d" % n, ok, "left.len := (right.clock - left.clock) + right.len" if ok else
+             "the merged GC range's length is %s, which is not (right.clock - left.clock) + right.len" % (k,), "%s:%s" % (fn.file, st["line"]))
+    # no other way of growing a GC range in that function
+    merges = fn.calls_to("yrs::block::BlockRange::merge")
+    R.ob(rid, fn, "no-pairwise-merge", not merges, "BlockRange::merge (adds one length) is not used on a run: %d call(s)" % len(merges))
+
+
 def check(ctx, R):
     R.run("C15.a", rule_a, ctx)
     R.run("C15.b", rule_b, ctx)
@@ -118,4 +156,5 @@ def check(ctx, R):
     from . import preds
     R.run("C15.p", lambda R, c: preds.rule(R, c, "C15.p", ["branch_is_deleted", "flags_check"]), ctx)
     R.run("C15.p", lambda R, c: preds.flag_table(R, c, "C15.p"), ctx)
+    R.run("C15.g", rule_g, ctx)
     return {}
